@@ -8,6 +8,40 @@ use std::io::Write as _;
 mod metadata;
 
 mod meta_mode;
+mod client_mode;
+
+#[path = "/repo/distributed-walrus/src/client.rs"]
+#[allow(dead_code)]
+mod client;
+
+/// Mock of the node controller as `client.rs` sees it: per-topic FIFO of payloads.
+pub mod controller {
+    use std::collections::{HashMap, VecDeque};
+    use std::sync::Mutex;
+    #[derive(Default)]
+    pub struct NodeController {
+        q: Mutex<HashMap<String, VecDeque<Vec<u8>>>>,
+    }
+    impl NodeController {
+        pub async fn ensure_topic(&self, topic: &str) -> anyhow::Result<()> {
+            self.q.lock().unwrap().entry(topic.to_string()).or_default();
+            Ok(())
+        }
+        pub async fn append_for_topic(&self, topic: &str, data: Vec<u8>) -> anyhow::Result<()> {
+            self.q.lock().unwrap().entry(topic.to_string()).or_default().push_back(data);
+            Ok(())
+        }
+        pub async fn read_one_for_topic_shared(&self, topic: &str) -> anyhow::Result<Option<Vec<u8>>> {
+            Ok(self.q.lock().unwrap().get_mut(topic).and_then(|q| q.pop_front()))
+        }
+        pub fn topic_snapshot(&self, _topic: &str) -> anyhow::Result<String> {
+            Ok("STATE".into())
+        }
+        pub fn get_metrics(&self) -> anyhow::Result<String> {
+            Ok("METRICS".into())
+        }
+    }
+}
 
 pub struct Rng(pub u64);
 impl Rng {
@@ -54,6 +88,7 @@ fn main() {
     let mut out = Out::default();
     match mode.as_str() {
         "c18" => meta_mode::c18(seed, thorough, &mut out),
+        "c24" => client_mode::c24(seed, thorough, &mut out),
         _ => panic!("unknown mode"),
     }
     let w = |name: &str, lines: &Vec<String>| {
